@@ -1,6 +1,7 @@
 import GoLucene.TableCheck
 import GoLucene.Proofs.QuotedVerbatim
 import GoLucene.Proofs.LexSlash
+import GoLucene.Proofs.EscapedVerbatim
 /-
   The hypotheses some theorems put on the character-class table (`quoteColonNotAlnum` for C08, `slashNotAlnum` for the
   pattern facts of C04) are discharged here for every table that agrees on ASCII with the live `unicode.IsLetter` /
@@ -14,5 +15,18 @@ theorem agreesAscii_quoteColon (k : Cls) (h : k.agreesAscii) : k.quoteColonNotAl
 
 theorem agreesAscii_slash (k : Cls) (h : k.agreesAscii) : k.slashNotAlnum :=
   agreesAscii_structural k h 47 (by decide)
+
+theorem agreesAscii_ws (k : Cls) (h : k.agreesAscii) : k.wsNotAlnum := by
+  intro r hr
+  have hr' : r = 32 ∨ r = 9 ∨ r = 13 ∨ r = 10 := by
+    simp only [isWs, Bool.or_eq_true, decide_eq_true_eq] at hr
+    omega
+  have hlt : r < 128 := by omega
+  obtain ⟨hl, hd⟩ := h r hlt
+  rw [hl, hd]
+  rcases hr' with rfl | rfl | rfl | rfl <;> decide
+
+theorem agreesAscii_escHyp (k : Cls) (h : k.agreesAscii) : k.escHyp :=
+  ⟨agreesAscii_structural k h 58 (by decide), agreesAscii_structural k h 92 (by decide), agreesAscii_ws k h⟩
 
 end GoLucene
